@@ -310,6 +310,142 @@ def _gg_case(draw):
             "dt_factor": 10 ** draw(st.floats(-1, 1.5))}
 
 
+def _growth_on(bounds, spec):
+    """Growth field on the grid the model holds *now* (the history may have changed it)."""
+    b = np.asarray(bounds, dtype=float)
+    kind = spec[0]
+    if kind == "physical":
+        A, f = spec[1], spec[2]
+        rs = max(b[0] + f * (b[-1] - b[0]), 0.1 * b[0])
+        return A * (1 / rs - 1 / b)
+    if kind == "const":
+        return np.full(len(b), spec[1])
+    k = int(spec[2] * (len(b) - 2))
+    return np.where(np.arange(len(b)) <= k, -spec[1], spec[1])
+
+
+def check_after_history(case):
+    """The transport identities and the step limit on a model whose grid went through a history of grid operations
+    (extension, re-mesh, automatic adjustment, recorded states restored): every quantity must refer to the grid the model holds now."""
+    from kawin.precipitation.PopulationBalance import PopulationBalanceModel
+    out = Out()
+    c = case["ctor"]
+    p = PopulationBalanceModel(c["cmin"], c["cmax"], c["bins"], c["minBins"], c["maxBins"])
+    p.enableRecording()
+    times = []
+    regrids = restored = 0
+
+    def fill(spec):
+        i = np.arange(p.bins)
+        pos, w, logA = spec
+        n = 10 ** logA * np.exp(-(((i + 0.5) / p.bins - pos) / w) ** 2)
+        n[n < 1] = 0
+        p.PSD = n
+
+    for op in case["ops"]:
+        name = op[0]
+        b0 = p.PSDbounds.copy()
+        if name == "fill":
+            fill(op[1])
+        elif name == "add":
+            p.addSizeClasses(op[1])
+        elif name == "change":
+            p.changeSizeClasses(p.PSDbounds[0] * op[1], p.PSDbounds[-1] * op[2], op[3])
+        elif name == "adjust":
+            p.adjustSizeClassesEuler(op[1])
+        elif name == "record":
+            if p.bins <= p.maxBins:
+                t = (times[-1] if times else 0.0) + op[1]
+                p.record(t)
+                times.append(t)
+        elif name == "restore":
+            if times:
+                b_before = p.PSDbounds.copy()
+                p.setPSDtoRecordedTime(times[int(op[1] * (len(times) - 1) + 0.5)] if op[2] else times[0] - 1.0)
+                if len(b_before) != len(p.PSDbounds) or not np.allclose(b_before, p.PSDbounds, rtol=1e-12, atol=0):
+                    restored += 1
+        if len(b0) != len(p.PSDbounds) or not np.allclose(b0, p.PSDbounds, rtol=1e-12, atol=0):
+            regrids += 1
+    b = np.asarray(p.PSDbounds, dtype=float)
+    N = p.bins
+    if len(b) != N + 1 or len(p.PSD) != N or not np.all(np.diff(b) > 0):
+        out.label("grid_inconsistent_after_history")       # C08's subject; nothing to judge here
+        return out
+    if case["refill"] is not None:
+        fill(case["refill"])
+    n = np.array(p.PSD, dtype=float)
+    g = _growth_on(b, case["g"])
+    # step limit refers to the present class width
+    ratio = case["ratio"]
+    got = p.getDTEuler(case["dt"], g, 0, ratio)
+    rel = [abs(g[i]) for i in range(N) if n[i] > 0]
+    limited = bool(rel) and max(rel) > 0
+    expect = ratio * (b[1] - b[0]) / max(rel) if limited else case["dt"]
+    if not (abs(got - expect) <= 1e-12 * abs(expect)):
+        out.fail("step_limit_value_after_history", "after %d grid changes (%d by restoring a recorded state) getDTEuler = %r, expected ratio*dR/max|g| = %r with the present class width %r" % (regrids, restored, got, expect, b[1] - b[0]))
+    # transport on the present grid
+    J, rf = case["J"], case["rnuc_frac"]
+    r = b[0] + rf * (b[-1] - b[0])
+    d_with = np.array(p.getdXdtEuler(g, J, r, n), dtype=float)
+    d_zero = np.array(p.getdXdtEuler(g, 0.0, r, n), dtype=float)
+    dref, ob, ot, F, src = ref.transport(b, n, g)
+    mag = np.array([abs(F[i]) + abs(F[i + 1]) for i in range(N)])
+    bad = np.where(np.abs(d_zero - np.array(dref)) > 1e-12 * mag + 1e-300)[0]
+    if len(bad):
+        i = int(bad[0])
+        out.fail("upwind_mismatch_after_history", "after %d grid changes class %d: dn/dt = %r, upwind reference on the present grid %r" % (regrids, i, d_zero[i], dref[i]))
+    tot, expect_tot = float(np.sum(d_with)), J - ob - ot
+    if abs(tot - expect_tot) > 64 * N * EPS * (float(np.sum(mag)) + abs(J)) + 1e-300:
+        out.fail("sum_rule_after_history", "after %d grid changes sum dn/dt = %r, expected J - outflow = %r" % (regrids, tot, expect_tot))
+    where = ref.containing_class(b, r)
+    if J > 1e3 * EPS * float(np.max(mag) if N else 0) and isinstance(where, int):
+        diff = d_with - d_zero
+        got_cls = [int(i) for i in np.where(np.abs(diff) > 8 * EPS * (mag + abs(J)) + 1e-300)[0]]
+        if got_cls != [where]:
+            out.fail("nucleation_class_after_history", "after %d grid changes radius %r lies in class %d of the present grid but the nucleation term went to %r" % (regrids, r, where, got_cls))
+    # corrected step never empties a class that obeys the limit
+    dt = expect * case["dt_factor"] if limited else case["dt"]
+    p.getdXdtEuler(g, J, r, n)
+    d = np.array(p.correctdXdtEuler(dt, g, J, r, n), dtype=float)
+    newn = n + dt * d
+    dR = np.diff(b)
+    for i in range(N):
+        if abs(g[i]) * dt <= ratio * dR[i] and abs(g[i + 1]) * dt <= ratio * dR[i] and newn[i] < -1e-9 * n[i] - 1e-300:
+            out.fail("negative_under_limit_after_history", "after %d grid changes class %d obeys the step limit but goes from %r to %r" % (regrids, i, n[i], newn[i]))
+            break
+    out.label("regrids_%d" % min(regrids, 3), "restored_other_grid" if restored else "no_restore", "limited" if limited else "passthrough")
+    out.nt(regrids >= 1 and limited)
+    return out
+
+
+@st.composite
+def _hist_case(draw):
+    cmin = 10 ** draw(st.floats(-11, -8))
+    minB = draw(st.integers(4, 40))
+    maxB = draw(st.integers(minB + 4, 120))
+    bins = draw(st.integers(minB, maxB))
+    ctor = {"cmin": cmin, "cmax": cmin * draw(st.sampled_from([10.0, 10.0, 50.0, 100.0])), "bins": bins, "minBins": minB, "maxBins": maxB}
+    dist = st.tuples(st.floats(0.0, 1.0), st.floats(0.03, 0.5), st.floats(2, 25)).map(list)
+    op = st.one_of(
+        dist.map(lambda d: ["fill", d]), dist.map(lambda d: ["fill", d]),
+        st.integers(1, 30).map(lambda k: ["add", k]),
+        st.tuples(st.sampled_from([1.0, 1.0, 0.5, 2.0]), st.sampled_from([0.3, 0.5, 2.0, 3.0, 10.0]), st.one_of(st.none(), st.integers(minB, maxB + 10))).map(lambda t: ["change", t[0], t[1], t[2]]),     # class counts of minBins/2 or fewer are outside the domain of adjustSizeClassesEuler
+        st.booleans().map(lambda f: ["adjust", f]), st.booleans().map(lambda f: ["adjust", f]),
+        st.floats(0.1, 10.0).map(lambda t: ["record", t]), st.floats(0.1, 10.0).map(lambda t: ["record", t]),
+        st.tuples(st.floats(0, 1), st.sampled_from([True, True, True, False])).map(lambda t: ["restore", t[0], t[1]]),
+    )
+    gk = draw(st.sampled_from(["physical", "physical", "const", "signchange"]))
+    if gk == "physical":
+        g = ["physical", 10 ** draw(st.floats(-20, -10)), draw(st.floats(-0.5, 1.5))]
+    elif gk == "const":
+        g = ["const", draw(st.sampled_from([1.0, -1.0])) * 10 ** draw(st.floats(-14, -4))]
+    else:
+        g = ["signchange", 10 ** draw(st.floats(-14, -4)), draw(st.floats(0, 1))]
+    return {"ctor": ctor, "ops": draw(st.lists(op, min_size=1, max_size=12)), "refill": draw(st.one_of(st.none(), dist)), "g": g,
+            "ratio": draw(st.sampled_from([0.4, 0.4, 0.1, 0.25, 0.5])), "dt": 10 ** draw(st.floats(-3, 6)), "dt_factor": 10 ** draw(st.floats(-1, 0)),
+            "J": draw(st.sampled_from([0.0, 1.0])) * 10 ** draw(st.floats(-5, 30)), "rnuc_frac": draw(st.floats(0.0, 0.999))}
+
+
 def pred_nuc_below(case, v):
     """Open finding (if listed): nucleation radius below the smallest class boundary."""
     b0 = case["cmin"]
@@ -326,6 +462,9 @@ def clauses():
                     "x nucleation rate {0, 1e-5..1e30} x radius {inside, on a boundary, below grid, 0, above grid, at top}; non-trivial: populated distribution with a sign change of g or an out-of-grid radius with J>0"),
         Clause("limited", _case, check_limited, quick=8000, thorough=400000,
                rule="same generator, dt = model limit x 10^[-1,1]; non-trivial: at least one face needed limiting on a populated distribution"),
+        Clause("after_history", _hist_case, check_after_history, quick=6000, thorough=200000,
+               rule="generator: one PopulationBalanceModel (4-120 classes, recording on) driven through 1-12 operations {fill, addSizeClasses, changeSizeClasses, adjustSizeClassesEuler, record, setPSDtoRecordedTime}; then, on the grid the model holds, "
+                    "step limit = ratio * present class width / max|g| over populated classes, upwind reference, sum rule, nucleation class, no negative class under the limit; non-trivial: the grid changed at least once and the limit is active"),
         Clause("dtlimit", _case, check_dtlimit, quick=4000, thorough=200000,
                rule="same generator with dissolution fraction {0,1e-6,1e-3,0.01,0.1,0.5} and minimum index; non-trivial: the limit is active (populated class with non-zero growth at or above the index)"),
         Clause("graingrowth", _gg_case, check_graingrowth, quick=2000, thorough=60000,
